@@ -60,13 +60,13 @@ def run(res, tier):
     exe = pl.build.build_bin("plain")
     wd = pl.workdir("c05")
     cases = []
-    ns = [64, 128] if tier == "thorough" else [64]
+    ns = [64, 128] if vlib.wide(tier) else [64]
     for imp in IMPS:
         for ci, cur in enumerate(CURRENTS[imp]):
             for n in ns:
-                for mode in (("Ts", 128), ("rev", 128), ("Ts", 64)) if tier == "thorough" else (("Ts", 128), ("rev", 128)):
-                    for td in ((2.0, 4.0) if tier == "thorough" else (2.0,)):
-                        for zoom in ((0.8, 1.2) if tier == "thorough" else (1.2,)):
+                for mode in (("Ts", 128), ("rev", 128), ("Ts", 64)) if vlib.wide(tier) else (("Ts", 128), ("rev", 128)):
+                    for td in ((2.0, 4.0) if vlib.wide(tier) else (2.0,)):
+                        for zoom in ((0.8, 1.2) if vlib.wide(tier) else (1.2,)):
                             if tier == "quick" and ci != 1 and mode[0] == "rev":
                                 continue
                             d2 = (12.0 / (n - 1)) ** 2
@@ -78,16 +78,16 @@ def run(res, tier):
     DEV = [["--InterpolateClamped", "true"], ["--InterpolationPoints", 3], ["--derivation", 3], ["--PhaseSpaceSize", 10], ["--PhaseSpaceShiftX", 2], ["--PhaseSpaceShiftY", -2], ["--alpha0", 3.5e-3],
            ["--RenormalizeCharge", 5], ["--LinearRF", "false"], ["--padding", 2], ["--InterpolationPoints", 3, "--derivation", 3],
            ["--RoundPadding", "false", "--padding", 3.3], ["--FPTrack", 0], ["--InterpolateClamped", "true", "--InterpolationPoints", 3]]
-    devs = DEV if tier == "thorough" else DEV[:7]
+    devs = DEV if vlib.wide(tier) else DEV[:7]
     for dv in devs:
         cases.append(("collimator", CURRENTS["collimator"][1], 64, ("Ts", 128), 2.0, 1.2, tuple(dv)))
     # an odd grid size (every impedance once in the thorough tier)
-    for imp in (list(IMPS) if tier == "thorough" else ["collimator"]):
+    for imp in (list(IMPS) if vlib.wide(tier) else ["collimator"]):
         cases.append((imp, CURRENTS[imp][1], 65, ("Ts", 128), 2.0, 1.2, ()))
     # many steps per period (the program's default is 1000): the wake changes very little from step to step; start far from equilibrium
-    for imp in (("collimator", "wall") if tier == "thorough" else ("collimator",)):
+    for imp in (("collimator", "wall") if vlib.wide(tier) else ("collimator",)):
         cases.append((imp, CURRENTS[imp][1], 64, ("Ts", 1000), 2.0, 2.0, ()))
-        if tier == "thorough":
+        if vlib.wide(tier):
             cases.append((imp, CURRENTS[imp][1], 64, ("Ts", 512), 2.0, 0.6, ()))
 
     def do(c):
